@@ -750,6 +750,36 @@ fn step_name(kind: &StepKind, names: &[String]) -> String {
     }
 }
 
+/// State invariant of an aggregation cache slot, checked right after a call that was handed the
+/// slot returned `Ok`: the slot's fingerprint describes the slot's data. Either the slot was left
+/// as offered (same fingerprint, same preprocessed commitment), or it now describes the circuit
+/// that was just proven (this circuit's fingerprint). A slot whose data changed under an unchanged
+/// foreign fingerprint poisons every later call that offers it.
+fn slot_invariant(
+    slot: &Option<AggregationPrepCache<Cfg>>,
+    offered: Option<&CacheInfo>,
+    res: &Option<Result<Result<RecursionOutput<Cfg>, VerificationError>, String>>,
+    built: &Built,
+    prefix: &[String],
+    out: &mut Vec<CaseResult>,
+    detail: &dyn Fn(Value) -> Value,
+) {
+    if let (Some(c), Some(Ok(Ok(_)))) = (slot, res) {
+        let commit = commitment_json(c.circuit_prover_data.common_data());
+        let untouched = offered.is_some_and(|o| o.fp == c.circuit_fingerprint && o.commit == commit);
+        if c.circuit_fingerprint != built.fp && !untouched {
+            out.push(CaseResult::violated(
+                format!("{}|slot-after-call", prefix.join(">")),
+                "cache-slot-stale-fingerprint-after-call",
+                detail(json!({"slot": format!("{:?}", c.circuit_fingerprint), "circuit": format!("{:?}", built.fp),
+                              "offered": offered.map(|o| format!("{:?}", o.fp))})),
+            ));
+        } else {
+            out.push(CaseResult::held(format!("{}|slot-after-call", prefix.join(">")), true).count("slot-invariant-checked", 1));
+        }
+    }
+}
+
 fn run_history(h: &History, sample: bool) -> Vec<CaseResult> {
     let cfg = make_cfg(h.fri_shape);
     let w = World {
@@ -955,6 +985,7 @@ fn run_history(h: &History, sample: bool) -> Vec<CaseResult> {
                                         commit: commitment_json(c.circuit_prover_data.common_data()),
                                     });
                                     cached_res = Some(call(&w, &inputs, &built, &p, CacheRef::Agg(&mut slot), st.wrapper));
+                                    slot_invariant(&slot, offered.as_ref(), &cached_res, &built, &prefix, &mut out, &detail);
                                     slots.agg_info = slot.as_ref().map(|c| CacheInfo {
                                         fp: c.circuit_fingerprint,
                                         // after a miss the slot was refilled for this step's circuit
@@ -994,6 +1025,7 @@ fn run_history(h: &History, sample: bool) -> Vec<CaseResult> {
                         let mut slot = slots.agg.take();
                         offered = Some(info);
                         cached_res = Some(call(&w, &inputs, &built, &p, CacheRef::Agg(&mut slot), st.wrapper));
+                        slot_invariant(&slot, offered.as_ref(), &cached_res, &built, &prefix, &mut out, &detail);
                         slots.agg_info = slot.as_ref().map(|c| {
                             let commit = commitment_json(c.circuit_prover_data.common_data());
                             let kept = offered.as_ref().map(|o| o.commit == commit).unwrap_or(false);
